@@ -47,7 +47,7 @@ ASSUMPTIONS = [
 ]
 
 CATS = list(dt.CATEGORIES)
-USER = ["UInt8or16", "FloatRe", "Mixed"]
+USER = ["UInt8or16", "FloatRe", "Mixed", "Encoder.Dt", "Decoder.Dt"]
 PROBE_DTYPES = ["bool", "int8", "uint8", "uint16", "int32", "float16", "float32", "float64", "complex64"]
 PROBE_SHAPES = [(), (1,), (3,), (4,), (3, 4), (1, 4), (3, 1), (2, 3, 4), (3, 3)]
 PAIR_SHAPES = [((3,), (4,)), ((3, 4), (3, 5)), ((2, 3), (4, 3)), ((1, 4), (2, 4)), ((3, 4), (2, 3, 4)), ((2, 2), (3, 3)), ((3, 4), (3, 4))]
@@ -55,7 +55,11 @@ ROUTES = ["pickle0", "pickle1", "pickle2", "pickle3", "pickle4", "pickle5", "clo
 
 
 def cat_obj(name):
-    return getattr(usercats, name) if name in USER else getattr(jaxtyping, name)
+    if name in USER:
+        import functools
+
+        return functools.reduce(getattr, name.split("."), usercats)
+    return getattr(jaxtyping, name)
 
 
 def array_type_obj(at):
